@@ -1,5 +1,5 @@
 """C18 - collapsed forwarding: one upstream fetch, identical copies (DESIGN 6.7)."""
-import asyncio, json, os, random
+import asyncio, json, os, random, time
 import vlib, squidctl, peers, escen
 from vlib import VERIF
 
@@ -28,12 +28,24 @@ async def realise(ctx, sq, n, scen, rnd, slack=1.0):
             arrived.set()
             await go['head'].wait()
         shareable = not (par['outcome'] == 'unshareable')
-        cc = 'max-age=3600' if shareable else 'private, max-age=3600'
+        fr = par.get('fresh', 'fresh')
+        now = peers.http_date()
+        extra = []
+        if not shareable:
+            cc = 'private, max-age=3600'
+        elif fr == 'nocache':
+            cc, extra = 'no-cache', [('ETag', '"c18-%d"' % v)]
+        elif fr == 'mustreval0':
+            cc, extra = 'max-age=0, must-revalidate', [('Last-Modified', peers.http_date(time.time() - 86400))]
+        elif fr == 'expired':
+            cc, extra = 'public', [('Expires', now), ('Last-Modified', peers.http_date(time.time() - 86400))]
+        else:
+            cc = 'max-age=3600'
         body = peers.body_bytes(v, L)
-        head = peers.response_head(status, 'OK', [('Content-Length', str(L)), ('Cache-Control', cc), ('Date', peers.http_date()),
+        head = peers.response_head(status, 'OK', [('Content-Length', str(L)), ('Cache-Control', cc), ('Date', now)] + extra + [
                                                    ('X-Verif-Version', str(v)), ('X-Verif-Origin', '1')])
         await oc.send(head)
-        ev.append({'e': 'FetchHead', 'v': v, 'shareable': bool(shareable)})
+        ev.append({'e': 'FetchHead', 'v': v, 'shareable': bool(shareable), 'reval': bool(shareable and fr != 'fresh')})
         if is_first:
             await go['half'].wait()
         await oc.send(body[:L // 2])
@@ -100,7 +112,7 @@ def fill(ev):
     """uniform fields for TLC"""
     out = []
     for e in ev:
-        d = {'e': e['e'], 'id': e.get('id', ''), 'v': e.get('v', -1), 'len': e.get('len', 0), 'status': e.get('status', 0), 'shareable': e.get('shareable', False),
+        d = {'e': e['e'], 'id': e.get('id', ''), 'v': e.get('v', -1), 'len': e.get('len', 0), 'status': e.get('status', 0), 'shareable': e.get('shareable', False), 'reval': e.get('reval', False),
              'fin': e.get('fin', ''), 'hv': e.get('hv', -1), 'bv': e.get('bv', -1), 'blen': e.get('blen', 0), 'intact': e.get('intact', True), 'complete': e.get('complete', False)}
         out.append(d)
     return out
@@ -117,7 +129,11 @@ def run(ctx):
         part = [s for s in scens if s['par']['workers'] == workers]
         if not ctx.thorough:
             rnd.shuffle(part)
-            part = part[:90]
+            strata = {}
+            for sc in part:
+                strata.setdefault((sc['par']['outcome'], sc['par']['fresh']), []).append(sc)
+            quota = {('ok', 'fresh'): 30, ('ok', 'nocache'): 16, ('ok', 'mustreval0'): 16, ('ok', 'expired'): 16, ('abort', 'fresh'): 10, ('unshareable', 'fresh'): 10}
+            part = [sc for k, lst in sorted(strata.items()) for sc in lst[:quota.get(k, 8)]]
         sq = squidctl.Squid(ctx, tree, name='c18-%d' % workers, clock=False, workers=workers if workers > 1 else 0, cache_mem='64 MB',
                             conf_extra='collapsed_forwarding on\n' + ('memory_cache_shared on\n' if workers > 1 else '') + 'maximum_object_size_in_memory 1 MB\nread_timeout 10 seconds\n')
         sq.start(wait=40)
@@ -171,6 +187,6 @@ def run(ctx):
     ctx.cov['collapsed_complete_bodies'] = sum(1 for o in out for e in o['ev'] if e['e'] == 'CResp' and e['complete'] and e['hv'] >= 0)
     for o in out[:2]:
         ctx.sample({'par': o['par'], 'len': o['len'], 'events': o['ev']})
-    ctx.cov['rule'] = ('classes = CollapseScen.tla (arrival point of 2-3 followers relative to the writer\'s fetch x outcome ok/abort/unshareable x worker assignment, 1 and 2 workers); '
+    ctx.cov['rule'] = ('classes = CollapseScen.tla (arrival point of 2-3 followers relative to the writer\'s fetch x outcome ok/abort/unshareable x freshness of the shared response (fresh / no-cache+ETag / max-age=0 must-revalidate / Expires=Date) x worker assignment, 1 and 2 workers); '
                        'the driver holds the origin\'s reply at head / mid-body / end so that followers arrive exactly there; histories validated by TLC against Collapse.tla; a rejected burst is re-run alone with wide timing margins before it is reported.')
     ctx.assumptions += ['per-worker listening ports (squid.conf conditionals) pin clients to workers']
